@@ -24,7 +24,7 @@ class Scripted:
         return np.asarray(M)[np.array(self.perm, dtype=int)]
 
 # case kinds of corpus/ entries (failing inputs of past regressions) that this module replays on every run
-CORPUS_KINDS = ('poll_run', 'dirs')
+CORPUS_KINDS = ('poll_run', 'dirs', 'pollset')
 
 
 
@@ -97,7 +97,7 @@ def function_level(ctx, rep, only=None):
         case = {"kind": "dirs", "D": D, "sms": sms, "ms": ms, "poll_scale": [float(v) for v in ps], "draw": mat, "sgn": sg, "perm": perm}
         mb = [[int(v) for v in r] for r in m["B"]]
         ib = [[float(v) for v in r] for r in B]
-        if len(mb) != len(ib) or any(abs(a - b) > 1e-9 * max(1, abs(a)) for ra, rb in zip(mb, ib) for a, b in zip(ra, rb)):
+        if len(mb) != len(ib) or any(not (abs(a - b) <= 1e-9 * max(1, abs(a))) for ra, rb in zip(mb, ib) for a, b in zip(ra, rb)):
             rep.disagree("Poll.basis ~ poll_mads_2n", f"D={D} ratio={sms / ms}: model {mb} impl {ib}", case)
         for clause in ("integer", "plus_minus", "bounded", "nonsingular", "square"):
             if not pr[clause]:
@@ -121,6 +121,47 @@ def mesh_expand_specs(ctx):
         sp["options"] = {"n_search": 32, "max_fun_evals": (sp["D"] + 55) if sp["mode"] == "det" else 100, "search_mesh_expand": rng.choice([1, 1, 2]), "noise_final_samples": 0}
         specs.append(sp)
     return specs
+
+
+def poll_set_level(ctx, rep, only=None):
+    """The poll set after the box filter (contraints_check with proj=False, as `_poll_step_` calls it): every surviving row must be one of the
+    candidates `incumbent + mesh_size * direction` EXACTLY - candidates that overshoot a hard bound, by however little, are dropped, never
+    moved.  Incumbents sit on, or within a tiny distance of, a bound; meshes from 1 down to 2^-30."""
+    import types
+    from pybads.function_logger.constraints_check import contraints_check
+    rng = ctx.sub_rng("c14pollset")
+    cases = only or []
+    if only is None:
+        for _ in range(150 if ctx.quick else 2000):
+            D = rng.randint(1, 4)
+            ms = 2.0 ** -rng.randint(0, 30)
+            lb = [-1.5 - rng.random() for _ in range(D)]
+            ub = [1.5 + rng.random() for _ in range(D)]
+            u = []
+            for i in range(D):
+                k = rng.random()
+                eps = rng.choice([0.0, 1e-12, 1e-9, 1e-7, 2.5e-6, 1e-5, ms / 3, ms * 0.999])
+                u.append(ub[i] - eps if k < 0.4 else (lb[i] + eps if k < 0.7 else rng.uniform(lb[i], ub[i])))
+            scale = [rng.choice([1.0, 1.0, 0.5, 2.0]) for _ in range(D)]
+            cases.append({"kind": "pollset", "D": D, "ms": ms, "lb": lb, "ub": ub, "u": u, "scale": scale})
+    n = 0
+    for c in cases:
+        D, ms = c["D"], c["ms"]
+        u = np.array(c["u"], dtype=float)
+        B = np.vstack((np.eye(D), -np.eye(D))) * np.array(c["scale"], dtype=float)
+        cand = u + ms * B
+        fl = types.SimpleNamespace(X=np.zeros((0, D)), X_max_idx=-1, variable_transformer=types.SimpleNamespace(inverse_transf=lambda v: v))
+        out = np.atleast_2d(contraints_check(cand.copy(), np.array(c["lb"]), np.array(c["ub"]), 2.0 ** -30, fl, False, None))
+        n += 1
+        rows = {tuple(r) for r in cand.tolist()}
+        moved = [r for r in out.tolist() if tuple(r) not in rows] if out.size else []
+        inside = [r for r in cand.tolist() if all(l <= v <= h for v, l, h in zip(r, c["lb"], c["ub"]))]
+        if moved:
+            rep.violation("poll_point_form", "constraints_check.py:contraints_check (poll set)", f"a poll candidate was moved instead of dropped: surviving row {moved[0]} is not incumbent + mesh_size * direction "
+                          f"(incumbent {c['u']}, mesh {ms}, bounds {c['lb']}..{c['ub']})", c)
+        elif sorted(map(tuple, out.tolist() if out.size else [])) != sorted(set(map(tuple, inside))):
+            rep.disagree("poll set = candidates inside the box", f"survivors {out.tolist() if out.size else []} vs candidates inside the box {inside}", c)
+    return n
 
 
 def run_level(ctx, rep):
@@ -195,6 +236,7 @@ def run_level(ctx, rep):
 def run(ctx):
     rep = Report()
     n, scopes, hist = function_level(ctx, rep)
+    n += poll_set_level(ctx, rep)
     stats = run_level(ctx, rep)
     rep.coverage = {
         "evaluations": n + stats["polls"], "distinct_nontrivial": n,
@@ -215,6 +257,8 @@ def replay(ctx, data):
         ctx._pool = [tracer.run_traced(c["spec"])]
         ctx._replaying = True
         run_level(ctx, rep)
+    elif c.get("kind") == "pollset":
+        poll_set_level(ctx, rep, only=[c])
     elif c.get("kind") == "dirs" and "draw" in c:
         function_level(ctx, rep, only=[c])
     else:
